@@ -1,7 +1,8 @@
 // extract-C03: the choices made in the source text that the Lean model of constant evaluation is
 // parametrised by.
 //
-//	interp/typecheck.go  bitlen table; representableConst integer arm (guards per kind, final comparison)
+//	interp/typecheck.go  bitlen table; representableConst integer arm (arm per kind: guard, signed range test with its
+//	                     two comparison operators; final comparison)
 //	interp/cfg.go        constOp map (action -> folding function)
 //	interp/op.go         per folding function: the go/constant entry point and token it uses, whether the
 //	                     operands are wrapped in constant.ToInt, the integer-quotient switch of quoConst
@@ -12,6 +13,7 @@ import (
 	"fmt"
 	"go/ast"
 	"go/token"
+	"go/types"
 	"sort"
 	"strings"
 
@@ -76,26 +78,91 @@ func isCall(e ast.Expr, pkg, name string) (*ast.CallExpr, bool) {
 	return c, ok && x.Name == pkg
 }
 
+// cmpOf maps a comparison token to the Lean `Cmp`.
+func cmpOf(op token.Token) string {
+	switch op {
+	case token.LEQ:
+		return ".le"
+	case token.LSS:
+		return ".lt"
+	}
+	return ".other"
+}
+
+// isReturnFalse recognises `return false`.
+func isReturnFalse(s ast.Stmt) bool {
+	rs, ok := s.(*ast.ReturnStmt)
+	if !ok || len(rs.Results) != 1 {
+		return false
+	}
+	id, ok := rs.Results[0].(*ast.Ident)
+	return ok && id.Name == "false"
+}
+
+// rangeOf recognises the signed arm with the exact range test
+//
+//	v, ok := constant.Int64Val(x)
+//	if !ok { return false }
+//	s := uint(bitlen[t.Kind()])
+//	return -1<<(s-1) <lo> v && v <hi> 1<<(s-1)-1
+//
+// (comments are not statements) and returns the two comparison operators.
+func rangeOf(body []ast.Stmt) (lo, hi string, ok bool) {
+	if len(body) != 4 {
+		return
+	}
+	as, ok1 := body[0].(*ast.AssignStmt)
+	if !ok1 || as.Tok != token.DEFINE || len(as.Lhs) != 2 || len(as.Rhs) != 1 || types.ExprString(as.Lhs[0]) != "v" || types.ExprString(as.Lhs[1]) != "ok" {
+		return
+	}
+	if c, isAcc := isCall(as.Rhs[0], "constant", "Int64Val"); !isAcc || len(c.Args) != 1 || types.ExprString(c.Args[0]) != "x" {
+		return
+	}
+	is, ok2 := body[1].(*ast.IfStmt)
+	if !ok2 || is.Init != nil || is.Else != nil || types.ExprString(is.Cond) != "!ok" || len(is.Body.List) != 1 || !isReturnFalse(is.Body.List[0]) {
+		return
+	}
+	sd, ok3 := body[2].(*ast.AssignStmt)
+	if !ok3 || sd.Tok != token.DEFINE || len(sd.Lhs) != 1 || len(sd.Rhs) != 1 || types.ExprString(sd.Lhs[0]) != "s" ||
+		types.ExprString(sd.Rhs[0]) != "uint(bitlen[t.Kind()])" {
+		return
+	}
+	rs, ok4 := body[3].(*ast.ReturnStmt)
+	if !ok4 || len(rs.Results) != 1 {
+		return
+	}
+	and, ok5 := rs.Results[0].(*ast.BinaryExpr)
+	if !ok5 || and.Op != token.LAND {
+		return
+	}
+	l, okl := and.X.(*ast.BinaryExpr)
+	h, okh := and.Y.(*ast.BinaryExpr)
+	if !okl || !okh {
+		return
+	}
+	if types.ExprString(l.X) != "-1 << (s - 1)" || types.ExprString(l.Y) != "v" ||
+		types.ExprString(h.X) != "v" || types.ExprString(h.Y) != "1 << (s - 1) - 1" {
+		return
+	}
+	return cmpOf(l.Op), cmpOf(h.Op), true
+}
+
 // guardOf recognises the body `if _, ok := constant.<Acc>(x); !ok { return false }`.
 func guardOf(body []ast.Stmt) string {
 	if len(body) == 1 {
-		if rs, ok := body[0].(*ast.ReturnStmt); ok && len(rs.Results) == 1 {
-			if id, ok := rs.Results[0].(*ast.Ident); ok && id.Name == "false" {
-				return ".reject"
-			}
+		if isReturnFalse(body[0]) {
+			return ".reject"
 		}
 		if is, ok := body[0].(*ast.IfStmt); ok && is.Else == nil {
 			as, ok1 := is.Init.(*ast.AssignStmt)
 			un, ok2 := is.Cond.(*ast.UnaryExpr)
 			if ok1 && ok2 && un.Op == token.NOT && len(as.Rhs) == 1 && len(is.Body.List) == 1 {
-				if rs, ok := is.Body.List[0].(*ast.ReturnStmt); ok && len(rs.Results) == 1 {
-					if id, ok := rs.Results[0].(*ast.Ident); ok && id.Name == "false" {
-						if _, ok := isCall(as.Rhs[0], "constant", "Int64Val"); ok {
-							return ".int64Val"
-						}
-						if _, ok := isCall(as.Rhs[0], "constant", "Uint64Val"); ok {
-							return ".uint64Val"
-						}
+				if isReturnFalse(is.Body.List[0]) {
+					if _, ok := isCall(as.Rhs[0], "constant", "Int64Val"); ok {
+						return ".int64Val"
+					}
+					if _, ok := isCall(as.Rhs[0], "constant", "Uint64Val"); ok {
+						return ".uint64Val"
 					}
 				}
 			}
@@ -104,8 +171,10 @@ func guardOf(body []ast.Stmt) string {
 	return ""
 }
 
-func reprArm(f *ast.File) (pre string, cmp string) {
-	bad := func(what string) (string, string) { return "[] /- " + unrec(what) + " -/", ".other" }
+func reprArm(f *ast.File) (pre, cmp, lo, hi string) {
+	bad := func(what string) (string, string, string, string) {
+		return "[] /- " + unrec(what) + " -/", ".other", ".other", ".other"
+	}
 	fd := common.FindFunc(f, "", "representableConst")
 	if fd == nil || len(fd.Body.List) != 1 {
 		return bad("representableConst shape")
@@ -126,6 +195,8 @@ func reprArm(f *ast.File) (pre string, cmp string) {
 		}
 	}
 	// expected: x := constant.ToInt(c); if x.Kind() != constant.Int { return false }; switch t.Kind() {…}; return BitLen(x) <op> bitlen[t.Kind()]
+	// where the signed arm of the inner switch returns the exact range test itself (rangeOf) and the unsigned arm
+	// only guards with Uint64Val (guardOf)
 	if arm == nil || len(arm.Body) != 4 {
 		return bad("isInt arm of representableConst")
 	}
@@ -134,11 +205,20 @@ func reprArm(f *ast.File) (pre string, cmp string) {
 		return bad("inner switch of the isInt arm")
 	}
 	var items []string
+	lo, hi = ".other", ".other" // no range test in the source: the operators are not used by the model
+	nRange := 0
 	for _, s := range inner.Body.List {
 		cc := s.(*ast.CaseClause)
 		g := guardOf(cc.Body)
+		if l, h, ok := rangeOf(cc.Body); ok {
+			if nRange > 0 && (l != lo || h != hi) {
+				return bad("two different range tests")
+			}
+			g, lo, hi = ".int64Range", l, h
+			nRange++
+		}
 		if g == "" {
-			return bad("guard of an inner case")
+			return bad("arm of an inner case")
 		}
 		if cc.List == nil { // default
 			if g != ".reject" {
@@ -157,11 +237,11 @@ func reprArm(f *ast.File) (pre string, cmp string) {
 	pre = "[" + strings.Join(items, ", ") + "]"
 	rs, ok := arm.Body[3].(*ast.ReturnStmt)
 	if !ok || len(rs.Results) != 1 {
-		return pre, ".other"
+		return pre, ".other", lo, hi
 	}
 	be, ok := rs.Results[0].(*ast.BinaryExpr)
 	if !ok {
-		return pre, ".other"
+		return pre, ".other", lo, hi
 	}
 	_, okL := isCall(be.X, "constant", "BitLen")
 	ix, okR := be.Y.(*ast.IndexExpr)
@@ -170,17 +250,9 @@ func reprArm(f *ast.File) (pre string, cmp string) {
 		okR = ok && id.Name == "bitlen"
 	}
 	if !okL || !okR {
-		return pre, ".other"
+		return pre, ".other", lo, hi
 	}
-	switch be.Op {
-	case token.LEQ:
-		cmp = ".le"
-	case token.LSS:
-		cmp = ".lt"
-	default:
-		cmp = ".other"
-	}
-	return pre, cmp
+	return pre, cmpOf(be.Op), lo, hi
 }
 
 func main() {
@@ -189,11 +261,11 @@ func main() {
 		if err != nil {
 			return "", err
 		}
-		pre, cmp := reprArm(fT)
+		pre, cmp, lo, hi := reprArm(fT)
 		var b strings.Builder
 		b.WriteString("import YaegiVerif.Model.Const\nimport YaegiVerif.Model.ConstDecl\nnamespace YaegiVerif.Generated.C03\nopen YaegiVerif.Const\n")
-		fmt.Fprintf(&b, "/-- interp/typecheck.go: bitlen, representableConst (integer arm) -/\ndef reprFacts : ReprFacts :=\n  { bitlen := %s,\n    pre := %s,\n    cmp := %s }\n",
-			bitlenTable(fT), pre, cmp)
+		fmt.Fprintf(&b, "/-- interp/typecheck.go: bitlen, representableConst (integer arm) -/\ndef reprFacts : ReprFacts :=\n  { bitlen := %s,\n    pre := %s,\n    cmp := %s,\n    lo := %s,\n    hi := %s }\n",
+			bitlenTable(fT), pre, cmp, lo, hi)
 		more, err := evalFacts(repo)
 		if err != nil {
 			return "", err
